@@ -51,6 +51,13 @@ func runC01(ctx *Ctx) {
 			c01CreditFault(ctx, i, c%2, c/2)
 		}
 	}
+	// the first credit a node ever receives, racing with that node's own keep-alive
+	for c := 0; c < ctx.N(2, 20); c++ {
+		i := nseq + 200 + c
+		if ctx.Want(i) {
+			c01FirstCredit(ctx, i, c%2, ctx.N(80, 600))
+		}
+	}
 	// many agents updating at once (free-running goroutines, both drivers)
 	for c := 0; c < ctx.N(6, 60); c++ {
 		i := nseq + c
@@ -171,4 +178,59 @@ func c01CreditFault(ctx *Ctx, i, drv, which int) {
 		mon = append(mon, fmt.Sprintf("c01-credit-fault-total: the store refused the credit for %s, yet the client was charged for it: ledger total %s after the keep-alive (error returned: %v)", fs.failFor, s.TotalCredit.String(), err))
 	}
 	ctx.Emit(Case{I: i, Kind: "credit-fault-" + driverNames[drv], Desc: map[string]interface{}{"failing_peer": string(fs.failFor), "injected_failures": fs.fails, "total": s.TotalCredit.String()}, Monitor: mon})
+}
+
+// c01FirstCredit: in every round a fresh host and a fresh client are registered and the client is
+// billed for the host for the first time while the host's own keep-alive (and reconnect) writes
+// its node record concurrently; after every round the ledger total must be zero and the host
+// must have earned exactly what the client paid.
+func c01FirstCredit(ctx *Ctx, i, drv, rounds int) {
+	st := newStore(drv)
+	defer st.Destroy()
+	var mon []string
+	price := big.NewInt(1000)
+	bad := 0
+	for r := 0; r < rounds && bad == 0; r++ {
+		now := time.Now()
+		host := store.Node{ID: store.NodeID(fmt.Sprintf("host-%d", r)), IsHost: true, LastSeen: now}
+		client := store.Node{ID: store.NodeID(fmt.Sprintf("client-%d", r)), LastSeen: now.Add(-5 * time.Minute)}
+		st.SetNode(host)
+		st.SetNode(client)
+		m := balance.PayPerInterval(st.Store, time.Minute, price)
+		m.VerifSetClock(func() time.Time { return now })
+		var wg sync.WaitGroup
+		start := make(chan struct{})
+		for g := 0; g < 4; g++ {
+			wg.Add(1)
+			go func(g int) {
+				defer wg.Done()
+				<-start
+				for k := 0; k < 6; k++ {
+					if g%2 == 0 {
+						st.UpdateNodePeers(host.ID, nil, uint64(k))
+					} else {
+						st.SetNode(host)
+					}
+				}
+			}(g)
+		}
+		var err error
+		wg.Add(1)
+		go func() {
+			defer wg.Done()
+			<-start
+			_, err = m.OnUpdate(client, []store.Node{host})
+		}()
+		close(start)
+		wg.Wait()
+		s, _ := st.Stats()
+		hb, _ := st.GetNodeBalance(host.ID)
+		cb, _ := st.GetNodeBalance(client.ID)
+		if s.TotalCredit.Sign() != 0 {
+			bad++
+			mon = append(mon, fmt.Sprintf("c01-first-credit-total: round %d: a client was billed for a host for the first time while the host's keep-alive ran: the host earned %s, the client paid %s, ledger total %s, not 0 (error returned: %v)",
+				r, hb.Credit.String(), new(big.Int).Neg(&cb.Credit).String(), s.TotalCredit.String(), err))
+		}
+	}
+	ctx.Emit(Case{I: i, Kind: "first-credit-" + driverNames[drv], Desc: map[string]interface{}{"rounds": rounds}, Monitor: mon})
 }
